@@ -150,7 +150,10 @@ def renderProj (pn : Bytes → NumC) (id : String) (pi : Nat) (p : Proj) (stream
   let nsr := maskOf flat (p.nonSingular distinct.reverse)
   let pairs := (pairsUpTo n).map fun (a, b) => maskOf flat (p.nonSingular [distinct.getD a 0, distinct.getD b 0])
   let nsp := if pairs.isEmpty then "-" else ".".intercalate pairs
-  s!"obs {id} p={pi} fields={showHexList p.fieldNames} flat={showHexList (flat.map (·.name))} n={n} ids={showNats ids} get={get} str={str} less={less} sorts={sorts} ns={ns} nsr={nsr} nsp={nsp}"
+  let first := distinct.take 6
+  let eq := if n == 0 then "-" else
+    ".".intercalate (first.map fun a => String.ofList (first.map fun b => bit (equalRow (p.vals a) (p.vals b))))
+  s!"obs {id} p={pi} fields={showHexList p.fieldNames} flat={showHexList (flat.map (·.name))} n={n} ids={showNats ids} get={get} str={str} less={less} sorts={sorts} ns={ns} nsr={nsr} nsp={nsp} eq={eq}"
 
 def obsLines (pn : Bytes → NumC) (id : String) (ops : List Op) : List String :=
   let st := run weakHash ops
